@@ -7,7 +7,6 @@ import (
 	"go/types"
 	"os"
 	"os/exec"
-	"path/filepath"
 	"regexp"
 	"sort"
 	"strconv"
@@ -103,8 +102,8 @@ func runC09on(c *Ctx, linux bool) {
 	checkRetryablePredicate(c)
 	checkNoPanic(c, roots)
 	checkStateDeref(c)
-	if c.Tier == "thorough" && linux {
-		checkBCE(c, roots)
+	if linux && os.Getenv("TRCHECK_OVERLAY") == "" {
+		checkBCE(c, roots) // compiles the working tree: not available for overlay variants of the self-test
 	}
 }
 
@@ -650,7 +649,7 @@ var bceTable = map[string]string{
 	"(*packets.FrameParser).GetICMPInfo|p.Layers[1]":          "only evaluated to format the message of the default branch; len(Layers) >= 2 after Parse succeeded",
 	"(*packets.FrameParser).GetIPLayer|p.Layers[0]":           "guarded by len(p.Layers) < expectedLayerCount just above (constant 2)",
 	"(*packets.FrameParser).GetTransportLayer|p.Layers[1]":    "guarded by len(p.Layers) < expectedLayerCount just above (constant 2)",
-	"(*sack.sackDriver).getRTTFromRelSeq|s.sendTimes[relSeq]": "relSeq range-checked against MaxTTL; slice length MaxTTL+1 (C19 R19.2 decides that length)",
+	"(*sack.sackDriver).findMatchingProbe|s.sendTimes[relSeq]": "only called by getRTTFromRelSeq after relSeq was range-checked against MaxTTL; slice length int(MaxTTL)+1 (C19 R19.2 decides that length)",
 	"common.TracerouteParallel$1|results[probe.TTL]":          "probe validated against MaxTTL (R03.1); table length int(MaxTTL)+1 (R03.2)",
 	"common.TracerouteSerial|results[probe.TTL]":              "probe validated against MaxTTL (R03.1); table length int(MaxTTL)+1 (R03.2)",
 }
@@ -659,11 +658,9 @@ var bceLine = regexp.MustCompile(`^(.+\.go):(\d+):(\d+): Found (IsInBounds|IsSli
 
 func checkBCE(c *Ctx, roots []*ssa.Function) {
 	R := c.R
-	cache := filepath.Join(core.VerifDir(), ".cache", "gobuild")
-	os.MkdirAll(cache, 0o755)
 	cmd := exec.Command(core.GoBin+"/go", "build", "-gcflags="+core.ModulePath+"/...=-d=ssa/check_bce/debug=1", "./...")
 	cmd.Dir = c.P.Dir
-	cmd.Env = append(os.Environ(), "PATH="+core.GoBin+":"+os.Getenv("PATH"), "GOFLAGS=-mod=readonly", "GOWORK=off", "CGO_ENABLED=0", "GOOS=linux", "GOARCH=amd64", "GOPROXY=off", "GOSUMDB=off", "GOTOOLCHAIN=local", "GOCACHE="+cache)
+	cmd.Env = append(os.Environ(), "PATH="+core.GoBin+":"+os.Getenv("PATH"), "GOFLAGS=-mod=readonly", "GOWORK=off", "CGO_ENABLED=0", "GOOS=linux", "GOARCH=amd64", "GOPROXY=off", "GOSUMDB=off", "GOTOOLCHAIN=local")
 	outb, err := cmd.CombinedOutput()
 	if err != nil && !bceLine.Match(outb) {
 		R.Fail("R09.3", "bce-oracle#build", 0, "", "compiler oracle failed to run: "+err.Error()+": "+firstLine(string(outb)))
@@ -702,6 +699,9 @@ func checkBCE(c *Ctx, roots []*ssa.Function) {
 		fnName, expr := c.locate(h.file, h.line, h.col)
 		if fnName == "" || !inb[fnName] {
 			continue
+		}
+		if expr == "" {
+			continue // no index/slice expression on that line: a check inside an inlined callee, decided in the callee's own function
 		}
 		nin++
 		k := fnName + "|" + expr
@@ -831,4 +831,28 @@ func pureFunc(c *Ctx, f *ssa.Function) bool {
 		}
 	}
 	return true
+}
+
+// loopOfHeader returns the natural loop of header h (union over all its back edges), or nil.
+func loopOfHeader(h *ssa.BasicBlock) map[*ssa.BasicBlock]bool {
+	var loop map[*ssa.BasicBlock]bool
+	for _, t := range h.Preds {
+		if !h.Dominates(t) {
+			continue
+		}
+		if loop == nil {
+			loop = map[*ssa.BasicBlock]bool{h: true}
+		}
+		work := []*ssa.BasicBlock{t}
+		for len(work) > 0 {
+			x := work[len(work)-1]
+			work = work[:len(work)-1]
+			if loop[x] {
+				continue
+			}
+			loop[x] = true
+			work = append(work, x.Preds...)
+		}
+	}
+	return loop
 }
